@@ -25,6 +25,11 @@ def gen(tier, rng):
     # unconfigured protocol object (default DATA report)
     for ln in (0, 1, 1023, 1024, 1025, 2500):
         cases.append({"size": None, "data": bytes((i * 5 + 1) & 0xFF for i in range(ln)).hex(), "family": None})
+    # object isolation: another protocol object was configured with another size earlier in the same process
+    for prior in (1020, 64, 2048):
+        for sz in (None, 1024, 512):
+            for ln in (1, 5, 1021, 2100):
+                cases.append({"size": sz, "prior": prior, "data": bytes((i * 3 + 2) & 0xFF for i in range(ln)).hex(), "family": None})
     return cases
 
 
@@ -43,6 +48,9 @@ def oracle(size, data, reports, skip=0):
     for k, r in enumerate(rs):
         if len(r) - 1 > size:
             bad.append(("packet-larger-than-negotiated", f"report {k} of {len(rs)} carries {len(r) - 1} bytes, negotiated size {size}"))
+            break
+        if len(r) - 1 != size:
+            bad.append(("report-size", f"report {k} of {len(rs)} carries {len(r) - 1} bytes, the report size of this protocol object is {size}"))
             break
         if r[:1] != b"\x02":
             bad.append(("report-id", f"report {k} has id {r[:1].hex()}"))
@@ -64,7 +72,7 @@ def run(rep, tier, rng):
     nfam_ok = 0
     for c, r in zip(cases + fam, res):
         data = bytes.fromhex(c["data"])
-        tag = f"family {c['family']}" if c["family"] else f"pack_size {c['size']}"
+        tag = f"family {c['family']}" if c["family"] else f"pack_size {c['size']}" + (f", another object configured with {c['prior']} before" if c.get("prior") else "")
         if not r["ok"]:
             if c["family"] and r["err"] == 1:
                 continue                        # family not in this database / not an SDPS device: nothing to judge
